@@ -210,6 +210,9 @@ pub fn serialise_kanata(c: &cfg::Cfg, hist: &[KEv]) -> Result<String, String> {
     if c.zippy.is_some() {
         return Err("zippychord".into());
     }
+    if c.options.sequence_always_on {
+        return Err("sequence-always-on".into());
+    }
     let lh = lay_hist(hist);
     let (lay, ser) = serialise_cfg(c, &lh);
     let mut out = vec![lay];
@@ -499,6 +502,24 @@ pub fn eval(line: &str) -> String {
     } else {
         res
     }
+}
+
+/// `eval`, except that a configuration outside the kanata-level model is still run on the real code:
+/// `unsupported <why> :: TRACE <trace>` (a panic is caught by the caller and shows as a crash)
+pub fn eval_free(line: &str) -> String {
+    let out = eval(line);
+    if !out.starts_with("unsupported") {
+        return out;
+    }
+    let p = parse_kline(line);
+    let loop_mode = p.hist.iter().any(|e| matches!(e, KEv::Gap(_)));
+    let mut r = match Runner::new(&p.cfg_text) {
+        Ok(r) => r,
+        Err(_) => return out,
+    };
+    run_hist(&mut r, &p.hist, loop_mode, false);
+    let idle = r.k.is_idle();
+    format!("{out} :: TRACE {} I idle={}", r.out.join(" "), idle as u8)
 }
 
 /// The same loop, except that it never blocks: it still asks `can_block_update_idle_waiting` every
